@@ -512,7 +512,7 @@ inline void runC02(Ctx &c)
                     MatrixXd Cd = Cref.cast<double>();
                     oo = coeffError(e, Cd, Cq, 1e-3);
                 }
-                c.check("C02.oracle_self_agreement", oo, 1e-9, keyJson(e, "oracle", 0));
+                c.check("C02.oracle_self_agreement", oo, 1e-7, keyJson(e, "oracle", 0));
             }
             // sampled competitors: same knots, same waypoints, same boundary states, perturbed interior knot derivatives
             {
